@@ -22,10 +22,11 @@ func (*inArray) Exit(node *Node) {
 						return
 					}
 					t := n.Left.Type()
-					if t == nil || t.Kind() != reflect.Int {
-						// This optimization can be only performed if left side is int type,
-						// as runtime.in func uses reflect.Map.MapIndex and keys of map must,
-						// be same as checked value type.
+					if t != reflect.TypeOf(0) {
+						// This optimization can be only performed if left side is int type
+						// (the predeclared int, not a type defined from it), as runtime.in
+						// func uses reflect.Map.MapIndex and keys of map must, be same as
+						// checked value type.
 						goto string
 					}
 
@@ -47,7 +48,7 @@ func (*inArray) Exit(node *Node) {
 					}
 
 				string:
-					if t == nil || t.Kind() != reflect.String {
+					if t != reflect.TypeOf("") {
 						// Same restriction as above: the lookup map is keyed by
 						// string, so the left side must be a string.
 						return
